@@ -60,12 +60,45 @@ NEST_FAM = {"nested-brackets", "nested-img", "ref-chain", "link-open", "open-bra
             "unclosed-link-title", "emph-link"}
 
 
+class WorkExceeded(Exception):
+    """the work budget of one measurement (far above anything linear) is used up: the run is abandoned"""
+
+
+class time_cap:
+    """abandon a call after `seconds` of wall-clock time (main thread only)"""
+
+    def __init__(self, seconds):
+        self.seconds = seconds
+
+    def __enter__(self):
+        import signal
+
+        def boom(signum, frame):
+            raise WorkExceeded(f"more than {self.seconds}s")
+        self.old = signal.signal(signal.SIGALRM, boom)
+        signal.setitimer(signal.ITIMER_REAL, self.seconds)
+
+    def __exit__(self, *a):
+        import signal
+        signal.setitimer(signal.ITIMER_REAL, 0)
+        signal.signal(signal.SIGALRM, self.old)
+        return False
+
+
+def work_cap(src):
+    return 20000 * len(src) + 2_000_000
+
+
 def calls_only(md, src, lib):
     n = [0]
+    cap = work_cap(src)
 
     def prof(frame, ev, arg):
         if ev == "call" and frame.f_code.co_filename.startswith(lib):
             n[0] += 1
+            if n[0] > cap:
+                sys.setprofile(None)
+                raise WorkExceeded(n[0])
     sys.setprofile(prof)
     try:
         md.render(src)
@@ -77,10 +110,14 @@ def calls_only(md, src, lib):
 def calls(md, src, lib):
     """work = executed source lines + calls inside markdown_it (loops that spin without calling anything count too)"""
     n = [0]
+    cap = work_cap(src)
 
     def local(frame, ev, arg):
         if ev == "line":
             n[0] += 1
+            if n[0] > cap:
+                sys.settrace(None)
+                raise WorkExceeded(n[0])
         return local
 
     def glob(frame, ev, arg):
@@ -130,6 +167,11 @@ def run(ctx: Ctx) -> None:
                 except RecursionError:
                     ctx.fail("recursion", f"family {name} exhausts the interpreter stack at length {L}", {"family": name, "preset": preset, "L": L})
                     continue
+                except WorkExceeded as e:
+                    ctx.count((name, preset), nontrivial=True)
+                    ctx.fail("superlinear", f"family {name}: the work budget (20000 units per character) is exhausted at length <= {4 * L} "
+                             f"({preset}): {e.args[0]} units", {"family": name, "preset": preset, "L": L, "input": name})
+                    continue
                 # growth of the work *per character* when the input doubles (1.0 = linear)
                 w = [x[1] / max(1, x[0]) for x in c]
                 r1 = 2 * w[1] / max(1e-9, w[0])
@@ -154,12 +196,18 @@ def run(ctx: Ctx) -> None:
             md = MarkdownIt("commonmark", {"maxNesting": 10})
             f = FAM[fam]
             # nesting is cut at the limit: no token sits deeper than maxNesting plus the two levels a list adds at once
-            deepest = max((t.level for t in md.parse(f(120))), default=0)
             ctx.count(("maxLevel", fam), nontrivial=True)
-            if deepest > 10 + 3:
-                ctx.fail("depth-not-cut", f"family {fam}: token level {deepest} with maxNesting=10: nesting beyond the limit is not cut", {"family": fam, "input": f(120)})
-            a = calls(md, f(40), lib)
-            b = calls(md, f(400), lib)
+            try:
+                with time_cap(60):
+                    deepest = max((t.level for t in md.parse(f(120))), default=0)
+                if deepest > 10 + 3:
+                    ctx.fail("depth-not-cut", f"family {fam}: token level {deepest} with maxNesting=10: nesting beyond the limit is not cut", {"family": fam, "input": f(120)})
+                a = calls(md, f(40), lib)
+                b = calls(md, f(400), lib)
+            except WorkExceeded as e:
+                ctx.fail("depth-not-cut", f"family {fam} with maxNesting=10: the work budget is exhausted ({e.args[0]}): nesting beyond the "
+                         "limit is not cut off cheaply", {"family": fam, "preset": "commonmark", "input": fam})
+                continue
             ctx.count(("maxNesting", fam), nontrivial=True)
             if b > a * 40:
                 ctx.fail("depth-not-cut", f"family {fam}: work beyond maxNesting grows super-linearly ({a} -> {b} calls for 10x depth)", {"family": fam})
@@ -199,7 +247,11 @@ def run(ctx: Ctx) -> None:
     docs += list(gens.doc_stream(ctx.rng, 200 if quick else 3000, 6))
     for d in docs:
         try:
-            md.render(d)
+            with time_cap(60):
+                md.render(d)
+        except WorkExceeded:
+            ctx.fail("superlinear", "rendering a short document takes more than 60 s", {"input": d[:400]})
+            break
         except Exception:
             pass
     over = [r for r in mon.loops if len(r["script"]) > max(0, r["end"] - r["start"])]
@@ -247,7 +299,10 @@ def replay(ctx: Ctx, obj: dict) -> bool:
         md = MarkdownIt(obj["preset"], {"typographer": True} if obj["preset"] == "js-default" else {})
         if obj["preset"] == "js-default":
             md.enable(["table", "strikethrough"])
-        c = measure(md, obj["family"], 300, lib)
+        try:
+            c = measure(md, obj["family"], 300, lib)
+        except WorkExceeded:
+            return False
         w = [x[1] / max(1, x[0]) for x in c]
         return max(2 * w[1] / max(1e-9, w[0]), 2 * w[2] / max(1e-9, w[1])) <= 2.35
     return True
